@@ -93,6 +93,22 @@ Proof.
   exact (proj1 (decl_of_checked iu ia inu Hc R HR fuel id d dc Hl H)).
 Qed.
 
+(* the whole export, with no per-case check at all: for every clean environment (`export_to` paths included), every clean
+   working directory and output directory, every type, fuel and import style: the text export_to_string returns — notice,
+   `import type` block with the specifiers import_path computes, doc block, `export type` declaration — is a module of the
+   grammar (the specifiers only rearrange characters of clean strings: Proofs/Path_clean_proofs.v) *)
+Theorem C04_generated_export_parses :
+  forall is_upper is_alnum is_numeric R esm cwd fuel t dir s,
+    classes_ok is_alnum is_numeric = true ->
+    clean_envb is_upper is_alnum is_numeric R = true ->
+    forallb cleanb cwd = true -> cleanb dir = true ->
+    export_string is_upper is_alnum is_numeric R esm cwd fuel t dir = Ok s ->
+    module is_alnum is_numeric s.
+Proof.
+  intros iu ia inu R esm cwd fuel t dir s Hc HR Hw Hd H. apply (export_parses iu ia inu R esm cwd fuel t dir s Hc H).
+  exact (export_checked iu ia inu Hc R HR esm cwd Hw fuel t dir s Hd H).
+Qed.
+
 (* the hypothesis is satisfiable: a generic struct with a quoted key, documentation holding a comment terminator, an
    inlined reference and an optional field, and an internally tagged enum over it; decl() answers for both *)
 Module C04_clean.
@@ -108,7 +124,7 @@ Definition ca (n : String.string) (ra : option rule) (ps : list (str * option rt
 Definition Inner := DStruct (ca "Inner" (Some Kebab) [(l "T"%string, Some (RLeaf LBool))])
   (SNamed [fd "first_name" (RParam 0) false NotOptional [l "/ x"%string]; fd "n" (ROption (RLeaf LString)) false (Optional false) []]).
 Definition Outer := DEnum (ca "Outer" None []) (Internal (l "kind"%string)) None
-  [{| v_ident := l "A"%string; v_shape := SNamed [fd "inner" (RNamed (l "Inner"%string) [RLeaf LFloat]) true NotOptional []]; v_rename := None;
+  [{| v_ident := l "A"%string; v_shape := SNamed [fd "inner" (RNamed (l "Inner"%string) [RLeaf LFloat]) true NotOptional []; fd "other" (RNamed (l "Inner"%string) [RLeaf LBool]) false NotOptional []]; v_rename := None;
       v_rename_all := None; v_skip := false; v_untagged := false; v_type := None; v_as := None |};
    {| v_ident := l "B"%string; v_shape := SUnit; v_rename := Some (l "b c"%string); v_rename_all := None; v_skip := false;
       v_untagged := false; v_type := None; v_as := None |}].
@@ -121,9 +137,21 @@ Example C04_clean_nonvacuous :
 /**
  * / x
  */
-""first-name"": number, n?: string, }, } | { ""kind"": ""b c"" };"%string) /\
-  (exists dc, decl_of is_ascii_upper C04_clean.al is_ascii_digit C04_clean.R 5 C04_clean.Inner = Ok dc).
-Proof. split; [vm_compute; reflexivity|]. split; [vm_compute; reflexivity|]. eexists. vm_compute. reflexivity. Qed.
+""first-name"": number, n?: string, }, other: Inner<boolean>, } | { ""kind"": ""b c"" };"%string) /\
+  (exists dc, decl_of is_ascii_upper C04_clean.al is_ascii_digit C04_clean.R 5 C04_clean.Inner = Ok dc) /\
+  export_string is_ascii_upper C04_clean.al is_ascii_digit C04_clean.R true [lit "w"%string] 5 (RNamed (lit "Outer"%string) []) (lit "./bindings"%string) =
+    Ok (NOTE ++ lit "import type { Inner } from ""./Inner.js"";
+
+/**
+ *a *\/ b
+ */
+export type Outer = { ""kind"": ""A"", inner: { 
+/**
+ * / x
+ */
+""first-name"": number, n?: string, }, other: Inner<boolean>, } | { ""kind"": ""b c"" };
+"%string).
+Proof. split; [vm_compute; reflexivity|]. split; [vm_compute; reflexivity|]. split; [eexists; vm_compute; reflexivity|]. vm_compute. reflexivity. Qed.
 
 (* the check is satisfiable by a declaration with documentation, quoted keys, a mapped type, a union of
    literals, a defaulted parameter; and it rejects a name holding a double quote and a reserved word *)
@@ -146,6 +174,7 @@ Proof. repeat split; vm_compute; reflexivity. Qed.
 Print Assumptions C04_export_layout.
 Print Assumptions C04_generated_declaration_is_checked.
 Print Assumptions C04_generated_declaration_parses.
+Print Assumptions C04_generated_export_parses.
 Print Assumptions C04_printed_type_parses.
 Print Assumptions C04_printed_decl_parses.
 Print Assumptions C04_export_parses.
